@@ -345,10 +345,31 @@ type pairClient struct {
 	InlinePredicates
 	p       *Program
 	fn      string
-	exprVar types.Object // the *parser.TabularExpr local
+	exprVar types.Object // the *parser.TabularExpr local of Compile
+}
+
+// Inline: predicates, and the helpers Compile was split into (functions that did not exist on the reviewed tree).
+func (c *pairClient) Inline(e *Engine, call *ast.CallExpr, callee *types.Func, decl *ast.FuncDecl) bool {
+	if c.InlinePredicates.Inline(e, call, callee, decl) {
+		return true
+	}
+	if callee.Pkg() == nil || callee.Pkg().Path() != PathPQL || c.p.recordedFunc(callee) {
+		return false
+	}
+	n := 0
+	ast.Inspect(decl.Body, func(x ast.Node) bool {
+		if _, ok := x.(ast.Stmt); ok {
+			n++
+		}
+		return true
+	})
+	return n <= 150
 }
 
 func (c *pairClient) PostCall(e *Engine, st *State, call *ast.CallExpr, _ *types.Func) *State {
+	if _, inPlace := e.inlined[call]; inPlace {
+		return nil // a helper interpreted in place: its own writes were seen
+	}
 	if b := emissionBuilder(e.Info, call); b != nil {
 		k := e.CanonSt(st, b)
 		if !k.OK {
@@ -367,16 +388,26 @@ func (c *pairClient) PostCall(e *Engine, st *State, call *ast.CallExpr, _ *types
 
 func (c *pairClient) PreAssign(e *Engine, st *State, lhs, rhs []ast.Expr, stmt ast.Stmt) *State {
 	for i, l := range lhs {
-		if objOf(e.Info, l) != c.exprVar || c.exprVar == nil {
+		o := objOf(e.Info, l)
+		if o == nil || TypeStr(o.Type()) != "*parser.TabularExpr" {
+			continue
+		}
+		if _, isVar := o.(*types.Var); !isVar {
 			continue
 		}
 		if _, isDecl := stmt.(*ast.DeclStmt); isDecl {
 			continue
 		}
-		if i < len(rhs) && isNilIdent(e.Info, rhs[i]) {
+		if as, isAs := stmt.(*ast.AssignStmt); !isAs || as.Tok != token.ASSIGN {
+			continue // a declaration, or the binding of a helper's parameter or result
+		}
+		if i >= len(rhs) || len(rhs) != len(lhs) || isNilIdent(e.Info, rhs[i]) {
 			continue
 		}
-		key := c.fn + " store to the query variable " + c.exprVar.Name()
+		if _, isCall := ast.Unparen(rhs[i]).(*ast.CallExpr); isCall {
+			continue
+		}
+		key := c.fn + " store to the query variable " + o.Name()
 		isNil := e.IsNil(st, l)
 		e.Site("C13/single", key, l, isNil, "the query variable is known nil when a tabular statement is stored: a second query statement cannot overwrite the first")
 		if !isNil {
@@ -467,14 +498,16 @@ func ruleC13Pair(p *Program, r *Run) {
 
 	// every parsed statement is looked at: the statement loop is never left early except with an error
 	var stmtLoop *ast.RangeStmt
-	ast.Inspect(fd.Body, func(n ast.Node) bool {
-		if rs, ok := n.(*ast.RangeStmt); ok && stmtLoop == nil {
-			if sl, ok := info.TypeOf(rs.X).Underlying().(*types.Slice); ok && TypeStr(sl.Elem()) == "parser.Statement" {
-				stmtLoop = rs
+	for _, root := range p.regionOf(pkg, fd.Body) {
+		ast.Inspect(root, func(n ast.Node) bool {
+			if rs, ok := n.(*ast.RangeStmt); ok && stmtLoop == nil {
+				if sl, ok := info.TypeOf(rs.X).Underlying().(*types.Slice); ok && TypeStr(sl.Elem()) == "parser.Statement" {
+					stmtLoop = rs
+				}
 			}
-		}
-		return true
-	})
+			return true
+		})
+	}
 	if stmtLoop == nil {
 		r.Fail("C13/all-statements", fn+" statement loop", p.Pos(fd.Pos()), "no loop over the parsed statements found")
 	} else {
